@@ -1,30 +1,15 @@
+//! Simulator-driven monitors for C36 (simulator decisions are sound), C37 (exhaustive simulation
+//! covers every distinct schedule) and C38 (simulator runs replay deterministically).
+//!
+//! `flows` is the corpus of small Hydro programs; the monitors live in `#[cfg(test)] mod tests`
+//! and are run by `bin/check` through the `cargotest` stage kind.
 #[cfg(stageleft_runtime)]
 hydro_lang::setup!();
 
-use hydro_lang::prelude::*;
+pub mod flows;
 
-/// Example flow (replace).
-pub fn double<'a>(input: Stream<i64, Process<'a, ()>>) -> Stream<i64, Process<'a, ()>> {
-    input.map(q!(|x| x * 2))
-}
-
+// `stageleft_runtime`-gated so that the staged copy of this crate (compiled into every simulator
+// dylib) does not contain the monitors; they hold no `q!` code.
+#[cfg(stageleft_runtime)]
 #[cfg(test)]
-mod tests {
-    use hydro_lang::prelude::*;
-
-    /// Example sim-driven check (replace). Run with:
-    ///   cargo test -p <crate> --release -- example_sim --nocapture
-    #[test]
-    fn example_sim() {
-        let mut flow = FlowBuilder::new();
-        let process = flow.process::<()>();
-        let (in_port, requests) = process.sim_input();
-        let out_port = super::double(requests).sim_output();
-        let n = flow.sim().exhaustive(async || {
-            in_port.send(1);
-            in_port.send(2);
-            out_port.assert_yields_only([2, 4]).await;
-        });
-        println!("{{\"t\":\"note\",\"executions\":{n}}}");
-    }
-}
+mod tests;
